@@ -285,45 +285,84 @@ def r4_no_rust_enums(ctx):
     want = {"PATHRS_PROC_ROOT": "ProcRoot", "PATHRS_PROC_SELF": "ProcSelf", "PATHRS_PROC_THREAD_SELF": "ProcThreadSelf"}
     pb = F.adts.get("procfs::ProcfsBase")
     vn = [v["name"] for v in pb["variants"]]
-    table = {}
-    other_ok = False
-    # the match is lowered to a chain of comparisons or a switch: handle both
+    # value-keyed branches: arms of a u64 switch and `== CONST` tests alike
+    T = ctx.tracer
+    branches = []      # (value, [edges taken when the base equals the value])
     for blk in tb.blocks:
-        if blk.cleanup or blk.term.kind != "switch":
+        if blk.cleanup or blk.term.kind != "switch" or blk.term.raw["dty"] != "u64":
             continue
         for e in cfg.succ.get(blk.idx, []):
-            v = e.label[1]
-            reach = cfg.edge_targets_reachable([e])
-            made = set()
-            for x in reach:
-                for s in tb.blocks[x].stmts:
-                    if s.kind == "assign" and s.rv["k"] == "agg" and s.rv.get("adt") == "procfs::ProcfsBase":
-                        made.add(s.rv["variant"])
-                    if s.kind == "assign" and s.rv["k"] == "use" and s.rv_operands() and s.rv_operands()[0].is_const and "ProcfsBase" in (s.rv_operands()[0].const.get("ty") or ""):
-                        vi = s.rv_operands()[0].int_value()
-                        if vi is not None and vi < len(vn):
-                            made.add(vn[vi])
-            table[(blk.idx, v)] = made
-    if sw:
+            if isinstance(e.label[1], int):
+                branches.append((e.label[1], [e]))
+    for t2 in tb.calls("std::cmp::PartialEq::eq", "std::cmp::PartialEq::ne"):
+        val = None
+        for i2 in (0, 1):
+            for o in T.origins_of_arg(t2, i2):
+                if o.kind == "const" and "CProcfsBase" in (o.op.const.get("ty") or ""):
+                    raw = decode_bytes(o.const_bytes() or "")
+                    if len(raw) == 8:
+                        val = int.from_bytes(raw, "little")
+                    elif o.const_int() is not None:
+                        val = o.const_int()
+        if val is None:
+            continue
+        be = bool_edges(tb, t2)
+        if be:
+            branches.append((val, be["true"] if t2.callee.endswith("::eq") else be["false"]))
+
+    def made_on(edges, cut=()):
+        made = set()
+        rch = cfg.precise_reach(edges, cut_edges=cut)
+        for x in rch:
+            for s_ in tb.blocks[x].stmts:
+                if s_.kind == "assign" and s_.rv["k"] == "agg" and s_.rv.get("adt") == "procfs::ProcfsBase":
+                    made.add(s_.rv["variant"])
+                if s_.kind == "assign" and s_.rv["k"] == "use" and s_.rv_operands() and s_.rv_operands()[0].is_const and "ProcfsBase" in (s_.rv_operands()[0].const.get("ty") or "") \
+                        and "CProcfsBase" not in (s_.rv_operands()[0].const.get("ty") or ""):
+                    vi = s_.rv_operands()[0].int_value()
+                    if vi is not None and vi < len(vn):
+                        made.add(vn[vi])
+        return made, rch
+
+    if branches:
         ok = True
-        s0 = sw[0]
-        for e in cfg.succ.get(s0.idx, []):
-            v = e.label[1]
-            made = table.get((s0.idx, v), set())
-            if v == "otherwise":
-                inv = any(s.kind == "assign" and s.rv["k"] == "agg" and s.rv.get("variant") == "InvalidArgument"
-                          for x in cfg.edge_targets_reachable([e]) for s in tb.blocks[x].stmts)
-                other_ok = inv and not made
-            else:
-                nm = [k for k, vv in vals.items() if vv == v]
-                if not nm or made != {want[nm[0]]}:
-                    ok = False
+        alleq = [e.key() for (_v, es) in branches for e in es]
+        byval = {}
+        for v, es in branches:
+            byval.setdefault(v, []).extend(es)
+        for v, es in byval.items():
+            # edges of the other values are cut: what this value alone produces
+            made, _r = made_on(es, cut=[k for k in alleq if k not in [e.key() for e in es]])
+            nm = [k for k, vv in vals.items() if vv == v]
+            if not nm or made != {want[nm[0]]}:
+                ok = False
+        if set(byval) != set(vals.values()):
+            ok = False
+        # anything else: entry with every value edge cut
+        e0 = [e for e in cfg.succ.get(cfg.entry, [])]
+        rch = cfg.reachable(cfg.entry, cut_edges=alleq)
+        made_other = set()
+        for x in rch:
+            for s_ in tb.blocks[x].stmts:
+                if s_.kind == "assign" and s_.rv["k"] == "agg" and s_.rv.get("adt") == "procfs::ProcfsBase":
+                    made_other.add(s_.rv["variant"])
+        inv = any(s_.kind == "assign" and s_.rv["k"] == "agg" and s_.rv.get("variant") == "InvalidArgument" for x in rch for s_ in tb.blocks[x].stmts)
+        for t2 in tb.calls("std::option::Option::<T>::ok_or_else", "std::option::Option::<T>::ok_or"):
+            if t2.bb in rch:
+                for a2 in T.origins_of_arg(t2, 1):
+                    if a2.kind == "agg" and a2.detail and a2.detail.startswith("closure ") and F.has(a2.detail[8:]):
+                        cb2 = F.body(a2.detail[8:])
+                        if any(s_.kind == "assign" and s_.rv["k"] == "agg" and s_.rv.get("variant") == "InvalidArgument" for bl in cb2.blocks for s_ in bl.stmts):
+                            inv = True
+                    if a2.kind == "agg" and a2.detail == "error::ErrorImpl::InvalidArgument":
+                        inv = True
+        other_ok = inv and not made_other
         if ok and other_ok and len(vals) == 3:
             out.append(holds("C17.R4", "CProcfsBase:conversion", tb.where(), "3 known values map to their bases; anything else -> InvalidArgument"))
         else:
             out.append(violated("C17.R4", "CProcfsBase:conversion", tb.where(), "procfs base conversion table broken (known=%s, wildcard->InvalidArgument=%s)" % (vals, other_ok)))
     else:
-        out.append(unproven("C17.R4", "CProcfsBase:conversion", tb.where(), "no u64 switch found in the conversion"))
+        out.append(unproven("C17.R4", "CProcfsBase:conversion", tb.where(), "no value-keyed branch found in the conversion"))
     # every CProcfsBase parameter goes through try_into
     for ex in _externs(ctx):
         b = F.body(ex["path"])
